@@ -479,7 +479,8 @@ impl DomSim {
                 _ => format!("b{}_{}", base / ID_STRIDE, i),
             };
             let mut props: Vec<(String, ValSpec)> = Vec::new();
-            let n_props = r.below(4);
+            // mostly a few properties; now and then enough to make the property map grow
+            let n_props = if r.chance(1, 15) { r.range(8, 16) } else { r.below(4) };
             for _ in 0..n_props {
                 let (k, v): (String, ValSpec) = match r.below(10) {
                     0..=4 => {
@@ -504,7 +505,7 @@ impl DomSim {
                         if ty == "Ref" || ty == "UniqueId" {
                             ty = "Attributes";
                         }
-                        (format!("P{}", ty), ValSpec::G { ty: ty.into(), s: r.below(1 << 30) })
+                        (format!("P{}{}", ty, r.below(3)), ValSpec::G { ty: ty.into(), s: r.below(1 << 30) })
                     }
                 };
                 if !props.iter().any(|(kk, _)| *kk == k) {
